@@ -403,6 +403,16 @@ def run(ctx):
         b["tid"] = j
     ctx.negative_controls("PinParseTrace", "Trace.cfg", allbad,
                           name="; ".join("%s x%d" % (n, len(v)) for n, v in sorted(by_name.items())))
+    # ---------------- phase 2: the parser's own events (guarded hooks) against HookTrace.tla ----------------
+    from drivers import hooktrace
+    hdir = tempfile.mkdtemp(prefix="c10h_")
+    try:
+        ok = [c for c, tr in zip(cases, traces) if not tr["out"]["raised"]]
+        pick = ok[:: max(1, len(ok) // 40)][:40]
+        hooktrace.hook_phase(ctx, "C10", calls=[("parser case %d" % i, (lambda c=c: call_real(c, hdir))) for i, c in enumerate(pick)],
+                             repo_select=["tests/unit_tests/test_parser_pin.py", "tests/unit_tests/test_parser_parquet.py"])
+    finally:
+        shutil.rmtree(hdir, ignore_errors=True)
     ctx.assume("pandas.read_csv parses the rendered decimal cells (multiples of 1/8) exactly and treats '', 'NaN' and 'NA' "
                "as missing; the spectrum-key cells are compared as text")
     ctx.assume("a column literally named 'charge' may be reported as a feature or as metadata (pin.py:192 looks the "
